@@ -152,6 +152,20 @@ def r16c(ctx, rep, cr):
         defs, uses = A.Defs(f), A.Uses(f)
         snaps = A.calls_to(f, SNAP)
         rests = A.calls_to(f, RESTORE)
+        if not rests and not snaps:
+            names3 = ('tensor_chain::TensorChain::commit', 'tensor_chain::state_machine::TensorStateMachine::apply_block',
+                      'tensor_chain::state_machine::TensorStateMachine::apply_entry')
+            deleg = [c for c in A.calls(f) if c.resolved in names3 and c.resolved != name]
+            mutates = [c for c in A.calls(f) if re.search(r'apply_operations_to_store$|apply_transaction$', c.resolved)]
+            if deleg and not mutates:
+                rep.holds('R16c', f, 'pre-image', 'delegates to %s' % lib.short(deleg[0].resolved))
+                continue
+            if not mutates:
+                rep.holds('R16c', f, 'pre-image', 'does not mutate the store itself')
+                continue
+            rep.violation('R16c', f, 'mutates-without-pre-image', f.loc(mutates[0].line),
+                          'the store is mutated here with no pre-image taken and no restore on failure: a failed append leaves the store changed and the chain not')
+            continue
         if not rests:
             rep.violation('R16c', f, 'shape', f.loc(), 'anchor-missing: no snapshot_bytes (%d) / restore_from_bytes (%d)' % (len(snaps), len(rests)))
             continue
